@@ -171,6 +171,8 @@ def crash_signature(pid, sub, text):
     """Signature for sanitizer / assert crashes: kind + first frame inside the library."""
     kind = "crash"
     m = re.search(r"ERROR: AddressSanitizer: ([\w-]+)", text)
+    if "VH-HANG" in text:
+        return "%s hang (a case did not finish within the per-case time limit)" % sub
     if m:
         kind = "asan-" + m.group(1)
     elif "runtime error:" in text:
